@@ -731,6 +731,188 @@ def oracle_cs(ck, case, o, inp):
                  field=sorted(bad)[0])
 
 
+# ------------------------------------------------------------------ Codespeed through whole executor sessions
+def gen_cs_exec_case(rng, directed=None):
+    """a session with a good and a bad executor: from its `trigger`-th start on, the bad executor's
+    binary answers 127, so its runs fail (hit 127 themselves, or are abandoned because a sibling did)"""
+    c = {'benchmarks': rng.randint(1, 3), 'invocations': rng.choice([1, 2, 2, 3]),
+         'scheduler': rng.choice(['batch', 'round-robin', 'round-robin', 'random']),
+         'incremental': rng.random() < 0.6, 'gap': rng.choice([0, 5, 20, 40]),
+         'first_ok': rng.random() < 0.8, 'its': rng.randint(1, 3), 'seed': rng.randint(0, 10 ** 6)}
+    c['trigger'] = rng.choice([0, 0, c['benchmarks'], c['benchmarks'], rng.randint(0, c['benchmarks'] * c['invocations'])])
+    if directed:
+        c.update(directed)
+    return c
+
+
+def run_cs_exec_case(ck, case):
+    import random as _random
+    ck._c18_cse = getattr(ck, '_c18_cse', 0) + 1
+    wd = os.path.join(ck.scratch, 'cse%d' % ck._c18_cse)
+    os.makedirs(wd)
+    names = NAMES[:case['benchmarks']]
+    cfg = {'default_experiment': 'T', 'default_data_file': 't.data', 'runs': {'invocations': case['invocations']},
+           'reporting': {'codespeed': {'url': 'http://127.0.0.1:9/result/add/json/', 'project': 'P'}},
+           'benchmark_suites': {'S': {'gauge_adapter': 'RebenchLog', 'command': 'h %(benchmark)s', 'benchmarks': names}},
+           # fixed paths (nothing is ever started): the run identities, hence the order in which the run set is
+           # iterated, do not depend on the scratch directory, so a replay sees the same schedule
+           'executors': {'Good': {'path': '/opt/verif-c18', 'executable': 'good-exe'},
+                         'Bad': {'path': '/opt/verif-c18', 'executable': 'bad-exe'}},
+           'experiments': {'T': {'suites': ['S'], 'executions': ['Good', 'Bad']}}}
+    conf = drive.write_config(wd, cfg)
+    vrng = _random.Random(case['seed'])
+    produced = {}          # (executor, benchmark) -> samples handed to ReBench so far
+    bad_starts = [0]
+    order = []             # (executor, benchmark, clock, samples at that moment) per run_completed notification
+    with CSWorld() as w:
+        def script(rec):
+            w.clock += case['gap']
+            args = rec['args'].split()
+            exe = 'Bad' if 'bad-exe' in args[0] else 'Good'
+            b = args[-1]
+            if exe == 'Bad':
+                bad_starts[0] += 1
+                if bad_starts[0] > case['trigger']:
+                    return drive.Outcome(127, 'sh: bad-exe: not found\n')
+            vals = [float(vrng.randint(1, 4000)) / 4 for _ in range(case['its'])]
+            produced.setdefault((exe, b), []).extend(vals)
+            return drive.Outcome(0, ''.join('%s: iterations=1 runtime: %sms\n' % (b, repr(v)) for v in vals))
+        orig_completed = REP.CodespeedReporter.run_completed
+
+        def spy(rep, run_id, statistics, cmdline):
+            w.script = [case['first_ok'], True]
+            key = (run_id.benchmark.suite.executor.name, run_id.benchmark.name)
+            order.append((key, int(w.clock), list(produced.get(key, []))))
+            return orig_completed(rep, run_id, statistics, cmdline)
+        REP.CodespeedReporter.run_completed = spy
+        orig_job = REP.CodespeedReporter.report_job_completed
+
+        def spy_job(rep, run_ids):
+            w.script = [case['first_ok'], True]
+            return orig_job(rep, run_ids)
+        REP.CodespeedReporter.report_job_completed = spy_job
+        t0 = int(w.clock)
+        try:
+            argv = ['--commit-id', 'abc123', '--environment', 'env1', '-s', case['scheduler']] + \
+                ([] if case['incremental'] else ['-I']) + [conf]
+            r = drive.run_session(wd, argv, script, random_choice=lambda seq: sorted(
+                seq, key=lambda x: (x.benchmark.suite.executor.name, x.benchmark.name))[vrng.randrange(len(seq))])
+        finally:
+            REP.CodespeedReporter.run_completed = orig_completed
+            REP.CodespeedReporter.report_job_completed = orig_job
+        attempts = list(w.reqs)
+    return r, attempts, order, produced, t0, names
+
+
+def check_cs_exec_sessions(ck, cases):
+    ops, results = [], []
+    for case in cases:
+        r, attempts, order, produced, t0, names = run_cs_exec_case(ck, case)
+        keys = [(e, b) for e in ('Good', 'Bad') for b in names]
+        idx = dict((k, i) for i, k in enumerate(keys))
+        full = case['invocations'] * case['its']
+        # a run of the bad executor that got all its invocations done before the binary went away is a normal run;
+        # every other one hits 127 itself or is abandoned because a sibling did: a failed run
+        failed = dict((k, k[0] == 'Bad' and len(produced.get(k, [])) < full) for k in keys)
+        # group attempts into requests: a failed first attempt is followed by its retry with the same body
+        reqs = []
+        i = 0
+        while i < len(attempts):
+            a = attempts[i]
+            n = 1
+            if not a['ok'] and i + 1 < len(attempts) and attempts[i + 1]['data'] == a['data']:
+                n = 2
+            body = a['data'].decode('utf-8') if isinstance(a['data'], bytes) else a['data']
+            entries = json.loads(urllib.parse.parse_qs(body)['json'][0])
+            reqs.append({'attempts': n, 'entries': [dict(canon_cs_entry_keyed(e, idx)) for e in entries]})
+            i += n
+        results.append((case, r, reqs, order, produced, keys, idx, failed))
+        if case['incremental']:
+            ops.append({'op': 'c18.cs_incr', 't0': t0, 'events':
+                        [{'k': 'completed', 'i': idx[k], 'now': now, 'ok': case['first_ok'],
+                          'run': {'ident': [], 'samples': [lib.frac(v) for v in smp], 'failed': failed[k]}}
+                         for (k, now, smp) in order] + [{'k': 'job', 'ok': case['first_ok']}]})
+        else:
+            ops.append({'op': 'c18.cs_final', 'ok': case['first_ok'],
+                        'runs': [{'ident': [], 'samples': [lib.frac(v) for v in produced.get(k, [])],
+                                  'failed': failed[k]} for k in keys]})
+    answers = ck.model(ops)
+    for (case, r, reqs, order, produced, keys, idx, failed), ans in zip(results, answers):
+        inp = {'cs_exec_case': case}
+        ck.impl_traces += 1
+        ck.count('codespeed-executor-session:%s,%s' % (case['scheduler'], 'incremental' if case['incremental'] else 'final'))
+        aborted_with_data = [k for k in keys if failed[k] and produced.get(k)]
+        ck.count('codespeed-executor-session: failed runs=%d' % sum(1 for k in keys if failed[k]))
+        if aborted_with_data:
+            ck.count('codespeed-executor-session: failed run that has samples')
+        ck.case(nontrivial_key=('cse', json.dumps(case, sort_keys=True)),
+                sample={'case': case, 'requests': len(reqs)})
+        if r.crash:
+            ck.oracle_fail('codespeed_no_traceback', inp, {'exception': r.crash[0], 'message': r.crash[1], 'frames': r.crash[2]},
+                           signature={'clause': 'codespeed_no_traceback', 'exception': r.crash[0], 'level': 'executor-session'})
+            continue
+        sent = [e for q in reqs for e in q['entries']]
+        # ---- oracle: -1 for every failed run in whatever mode; the statistics of the samples otherwise; each run once
+        want_runs = sorted(idx[k] for k in (keys if not case['incremental'] else [k for (k, _n, _s) in order]))
+        if sorted(e['run'] for e in sent) != want_runs:
+            ck.oracle_fail('codespeed_one_entry_per_run', inp, {'entries_for_runs': sorted(e['run'] for e in sent),
+                                                                'reported_runs': want_runs, 'runs': [list(k) for k in keys]},
+                           signature={'clause': 'codespeed_one_entry_per_run', 'level': 'executor-session'})
+        for e in sent:
+            k = keys[e['run']]
+            smp = [Fraction(v) for v in produced.get(k, [])]
+            if failed[k]:
+                if e['value'] != -1:
+                    ck.oracle_fail('codespeed_failed_is_minus_one', inp,
+                                   {'run': list(k), 'sent': {'result_value': e['value'], 'min': e['min'], 'max': e['max']},
+                                    'samples_of_the_failed_run': [float(x) for x in smp][:8],
+                                    'mode': 'incremental' if case['incremental'] else 'final'},
+                                   signature={'clause': 'codespeed_failed_is_minus_one', 'level': 'executor-session',
+                                              'mode': 'incremental' if case['incremental'] else 'final'})
+            elif smp:
+                mean = sum(smp) / len(smp)
+                var = sum((x - mean) ** 2 for x in smp) / len(smp)
+                if e['value'] is None or e['value'] == -1 or not close(e['value'], mean, max(abs(mean), 1)) or \
+                        Fraction(e['min']) != min(smp) or Fraction(e['max']) != max(smp) or \
+                        abs(Fraction(e['std']) ** 2 - var) > Fraction(1, 10 ** 6) * max(1, var):
+                    ck.oracle_fail('codespeed_values', inp, {'run': list(k), 'sent': e, 'samples': [float(x) for x in smp][:12]},
+                                   signature={'clause': 'codespeed_values', 'level': 'executor-session'})
+        # ---- model
+        m_reqs = ans.get('reqs') or []
+        ok = len(m_reqs) == len(reqs)
+        if ok:
+            for a, b in zip(reqs, m_reqs):
+                aa = sorted(a['entries'], key=lambda e: e['run'])
+                bb = sorted(b['entries'], key=lambda e: e['run'])
+                if a['attempts'] != b['attempts'] or len(aa) != len(bb) or \
+                        (case['incremental'] and [e['run'] for e in a['entries']] != [e['run'] for e in b['entries']]) or \
+                        not all(cs_entry_matches(x, y) for x, y in zip(aa, bb)):
+                    ok = False
+                    break
+        if not ok:
+            ck.disagree('c18.codespeed: CodespeedReporter driven by the real Executor vs RB.Report.csFinal/csRun', inp,
+                        {'reqs': reqs}, {'reqs': m_reqs}, TH_CS)
+
+
+def canon_cs_entry_keyed(e, idx):
+    key = (e.get('executable'), e['benchmark'].split(' ')[0])
+    return {'run': idx.get(key, -1), 'value': e['result_value'], 'min': e.get('min'), 'max': e.get('max'),
+            'std': e.get('std_dev')}
+
+
+CS_EXEC_DIRECTED = [
+    # the binary disappears after every run had its first invocation: the abandoned runs have samples
+    {'scheduler': 'round-robin', 'invocations': 2, 'benchmarks': 3, 'trigger': 3, 'incremental': True, 'gap': 0},
+    {'scheduler': 'round-robin', 'invocations': 2, 'benchmarks': 3, 'trigger': 3, 'incremental': False, 'gap': 0},
+    {'scheduler': 'round-robin', 'invocations': 3, 'benchmarks': 2, 'trigger': 2, 'incremental': True, 'gap': 40},
+    {'scheduler': 'random', 'invocations': 2, 'benchmarks': 3, 'trigger': 3, 'incremental': True, 'gap': 5},
+    # the binary never existed
+    {'scheduler': 'batch', 'invocations': 1, 'benchmarks': 3, 'trigger': 0, 'incremental': True, 'gap': 0},
+    {'scheduler': 'round-robin', 'invocations': 2, 'benchmarks': 2, 'trigger': 0, 'incremental': True, 'gap': 20},
+    {'scheduler': 'batch', 'invocations': 2, 'benchmarks': 2, 'trigger': 1, 'incremental': False, 'gap': 0},
+]
+
+
 # ------------------------------------------------------------------ whole sessions: stdout
 def check_sessions(ck, n_scen):
     """run + resume through the real CLI entry (in-process, scripted processes): the table
@@ -902,6 +1084,8 @@ def run(ck):
     finally:
         server.stop()
     check_sessions(ck, 12 if quick else 150)
+    check_cs_exec_sessions(ck, [gen_cs_exec_case(rng, d) for d in CS_EXEC_DIRECTED] +
+                           [gen_cs_exec_case(rng) for _ in range(40 if quick else 600)])
 
 
 def prepare_env():
@@ -925,6 +1109,8 @@ def replay(ck, data, pool=None):
                 server.stop()
         else:
             check_codespeed(ck, [inp['cs_case']])
+    elif 'cs_exec_case' in inp:
+        check_cs_exec_sessions(ck, [inp['cs_exec_case']])
     elif 'mean' in inp:
         ck.notes.append('rounding disagreement: re-run the tier with the same seed')
     else:
